@@ -10,7 +10,8 @@ PID = "C18"
 LEVEL = "exploration"
 RULE = ("5 rating classes x all ordered pairs of a 26-value (mu, sigma) alphabet (equal ordinals with different components, "
         "negatives, zeros, signed zeros, ints, huge/tiny) x {<,<=,>,>=,==,!=}; ordinal(z) for z in {default,0,1,2.5,-1,3}; "
-        "every foreign operand type on both sides; sorted() of every 4-subset; non-trivial = pair with different "
+        "every foreign operand type on both sides; sorted() of every 4-subset; every ordered pair (v1, v2): a rating built as v1, "
+        "used (ordinal, comparisons, sort, hash) and then set to v2 in place - as rate() does - must behave like a fresh v2;  non-trivial = pair with different "
         "(mu,sigma) bits, or a foreign operand, or a 4-subset containing an ordinal tie")
 ASSUMPTIONS = ["NaN / infinite components are outside the alphabet", "ordinal(z) compared with the float expression mu - z*sigma to 2 ulp"]
 
@@ -74,6 +75,32 @@ def eval_pair(kind, va, vb):
     return msgs
 
 
+def eval_reassign(kind, v1, v2):
+    """A rating object that has been used (ordinal, comparisons, sorting) and then had its values changed in place -
+    which is what rate() does to the objects passed to it - must behave exactly like a fresh rating with the new values."""
+    m = spaces.model_class(kind)()
+    r = m.rating(*v1)
+    partners = [m.rating(*v) for v in ALPHA[:8]]
+    try:
+        r.ordinal(); r.ordinal(1); r < partners[0]; r >= partners[1]; sorted([r] + partners[:2]); hash(r); r == partners[0]
+        r.mu, r.sigma = v2[0], v2[1]
+        f = m.rating(*v2)
+        msgs = []
+        for z in (None, 1):
+            a = r.ordinal() if z is None else r.ordinal(z)
+            b = f.ordinal() if z is None else f.ordinal(z)
+            if core.bits(a) != core.bits(b):
+                msgs.append(f"{kind}: rating created as {v1}, used, then set to {v2}: ordinal({'' if z is None else z}) = {a!r}, a fresh rating{v2} gives {b!r}")
+        for p in partners:
+            for sym, op in list(OPS.items()) + [("==", operator.eq), ("!=", operator.ne)]:
+                if op(r, p) is not op(f, p) or op(p, r) is not op(p, f):
+                    msgs.append(f"{kind}: rating created as {v1}, used, then set to {v2}: {sym} against rating({p.mu},{p.sigma}) differs from a fresh rating{v2}")
+                    break
+        return msgs[:3]
+    except Exception as e:
+        return [f"{kind}: reassign {v1}->{v2} raised {type(e).__name__}: {e}"]
+
+
 def eval_ordinal(kind, v, z):
     m = spaces.model_class(kind)()
     r = m.rating(*v)
@@ -131,6 +158,7 @@ def units(ctx):
         us.append((kind, "pairs"))
         us.append((kind, "ordinal"))
         us.append((kind, "foreign"))
+        us.append((kind, "reassign"))
         for k in range(3):
             us.append((kind, "sorted", k, 3))
     return us
@@ -169,6 +197,15 @@ def run_unit(unit, ctx):
                 acc.nontrivial += 1
                 for msg in eval_ordinal(kind, v, z):
                     acc.violation(PID, f"{kind}:ordinal", msg, vcase(kind, "ordinal", a=enc(v), z=z))
+    elif what == "reassign":
+        for v1 in ALPHA:
+            for v2 in ALPHA:
+                acc.evals += 1
+                if v1 != v2:
+                    acc.nontrivial += 1
+                for msg in eval_reassign(kind, v1, v2):
+                    acc.violation(PID, f"{kind}:reassign", msg, vcase(kind, "reassign", a=enc(v1), b=enc(v2)))
+        acc.sample({"kind": kind, "what": "used rating re-assigned in place", "from": list(ALPHA[4]), "to": list(ALPHA[5])})
     elif what == "foreign":
         m = spaces.model_class(kind)()
         for fname, _ in foreign_operands(kind, m):
@@ -201,9 +238,15 @@ def replay(case):
         return eval_ordinal(kind, dec(case["a"]), case["z"])
     if what == "foreign":
         return eval_foreign(kind, dec(case["a"]), case["f"])
+    if what == "reassign":
+        return eval_reassign(kind, dec(case["a"]), dec(case["b"]))
     return eval_sorted(kind, [dec(v) for v in case["vs"]])
 
 
 def main(ctx, t0):
     acc = core.run_units(units(ctx), run_unit, ctx)
     return core.finish(PID, ctx, LEVEL, acc, RULE, {"exhaustive": True, "alphabet_size": len(ALPHA)}, ASSUMPTIONS, t0)
+
+
+def replay_unit(unit, ctx):
+    return run_unit(unit, ctx)
